@@ -1,4 +1,5 @@
 import CppUModel.Proofs.LeakDetector
+import CppUModel.Model.LeakPluginDrive
 /-!
 # C04 — leak accounting is exact for every allocation history
 
@@ -418,6 +419,37 @@ theorem acquire_wrappers_are_acquire :
   simp only [Gen.LeakDetector.acquireWrappers, List.mem_cons, List.mem_nil_iff, or_false] at hw
   rcases hw with rfl | rfl | rfl | rfl | rfl | rfl | rfl | rfl | rfl | rfl | rfl | rfl | rfl | rfl | rfl | rfl <;>
     first | rfl | exact absurd hr (by decide)
+
+/-! ## the detector driven by `MemoryLeakWarningPlugin` (statement lists regenerated by C07's translator) -/
+
+/-- the pre-test action starts the checking period and touches no record; the post-test action is `stopChecking`
+    followed by the demotion of the checking records — whatever the plugin's ignore / expected-leaks flags are -/
+theorem plugin_actions_on_the_detector (s : State) :
+    pluginPre s = startChecking s ∧ pluginPost s = markChecking (stopChecking s) := ⟨rfl, rfl⟩
+
+/-- after a post-test action no record is stamped `checking` any more (every other field of every record is as before) -/
+theorem plugin_post_leaves_nothing_checking (s : State) (inv : s.Inv) :
+    (pluginPost s).nodes = s.nodes.map demote ∧ totalMemoryLeaks (pluginPost s) .checking = 0 ∧
+    (pluginPost s).period = .enabled ∧ (pluginPost s).Inv := by
+  have inv' : (stopChecking s).Inv := inv
+  have h := mark_checking_demotes_exactly (stopChecking s) inv'
+  exact ⟨h.1, h.2.2, rfl, (markChecking_nodes inv').2⟩
+
+/-- so the next test starts with an empty checking period: right after its pre action the checking total is 0, and from
+    then on a record is `checking` only if it was allocated after that pre action (`alloc_adds_exactly` stamps the current
+    period; nothing else creates `checking` records) -/
+theorem plugin_next_checking_period_is_fresh (s : State) (inv : s.Inv) :
+    totalMemoryLeaks (pluginPre (pluginPost s)) .checking = 0 ∧ (pluginPre (pluginPost s)).period = .checking ∧
+    reportedLeaks (pluginPre (pluginPost s)) .checking = [] := by
+  have h := plugin_post_leaves_nothing_checking s inv
+  have hn : (pluginPre (pluginPost s)).nodes = (pluginPost s).nodes := rfl
+  have ht : totalMemoryLeaks (pluginPre (pluginPost s)) .checking = 0 := by
+    rw [total_eq_card, hn, ← total_eq_card]; exact h.2.1
+  refine ⟨ht, rfl, ?_⟩
+  have inv2 : (pluginPre (pluginPost s)).Inv := h.2.2.2
+  have := (report_entries_eq _ inv2 .checking).2.1
+  rw [ht] at this
+  exact List.eq_nil_of_length_eq_zero this
 
 /-! ## non-vacuity: a concrete history with three blocks in one bucket, a release from the middle of the
 chain, a stage release and a report -/
